@@ -14,6 +14,7 @@ import (
 	"encoding/json"
 	"errors"
 	"fmt"
+	"log/slog"
 	"strings"
 	"sync"
 	"testing"
@@ -216,6 +217,8 @@ func runC13(c *vh.Case, spec c13Spec) {
 		sc.Inject(vhm.Resp(req.ID, `{}`))
 		return nil
 	}
+	// what the SDK logs: keep-alive reports the pings it gives up on, and must be silent once the session is closed
+	sdkLog := slog.New(c13LogHandler{log})
 	hold := func(hctx context.Context) {
 		log.Add("incoming-handler-start")
 		if spec.Incoming == "busy" {
@@ -232,7 +235,7 @@ func runC13(c *vh.Case, spec c13Spec) {
 	uctx, ucancel := context.WithCancel(ctx)
 	defer ucancel()
 	if spec.Side == "client" {
-		client := mcp.NewClient(&mcp.Implementation{Name: "c", Version: "1"}, &mcp.ClientOptions{KeepAlive: iv, KeepAliveFailureThreshold: spec.Threshold,
+		client := mcp.NewClient(&mcp.Implementation{Name: "c", Version: "1"}, &mcp.ClientOptions{KeepAlive: iv, KeepAliveFailureThreshold: spec.Threshold, Logger: sdkLog,
 			CreateMessageHandler: func(hctx context.Context, _ *mcp.CreateMessageRequest) (*mcp.CreateMessageResult, error) {
 				hold(hctx)
 				return &mcp.CreateMessageResult{Model: "m", Role: "assistant", Content: &mcp.TextContent{Text: "x"}}, nil
@@ -254,7 +257,7 @@ func runC13(c *vh.Case, spec c13Spec) {
 			sc.Inject(vhm.Req("hold", "sampling/createMessage", `{"messages":[{"role":"user","content":{"type":"text","text":"x"}}],"maxTokens":1}`))
 		}
 	} else {
-		server := mcp.NewServer(&mcp.Implementation{Name: "s", Version: "1"}, &mcp.ServerOptions{KeepAlive: iv, KeepAliveFailureThreshold: spec.Threshold})
+		server := mcp.NewServer(&mcp.Implementation{Name: "s", Version: "1"}, &mcp.ServerOptions{KeepAlive: iv, KeepAliveFailureThreshold: spec.Threshold, Logger: sdkLog})
 		server.AddTool(&mcp.Tool{Name: "hold", InputSchema: json.RawMessage(`{"type":"object"}`)}, func(hctx context.Context, _ *mcp.CallToolRequest) (*mcp.CallToolResult, error) {
 			hold(hctx)
 			return &mcp.CallToolResult{Content: []mcp.Content{&mcp.TextContent{Text: "held"}}}, nil
@@ -302,6 +305,7 @@ func runC13(c *vh.Case, spec c13Spec) {
 		}
 		log.Add("harness-close")
 		closeFn()
+		log.Add("harness-close-returned", "plain", true)
 	} else {
 		// The application closes gracefully while its own call is still outstanding. Close waits for the call:
 		// it ends when the peer answers, when keep-alive gives the peer up, or when the caller gives up.
@@ -439,6 +443,13 @@ func decideC13(c *vh.Case, spec c13Spec) {
 			graceful = givesUpT
 		}
 	}
+	for _, e := range c.Log.Events() {
+		switch {
+		case e.Kind == "sdk-log" && strings.Contains(fstr(e, "msg"), "keepalive") && harnessClose >= 0 && e.T > harnessClose:
+			c.Violate("keepalive-not-silent-after-close", "the application closed the session at %v; keep-alive still reported %q (%s) at %v", time.Duration(harnessClose)*time.Microsecond, fstr(e, "msg"), fstr(e, "level"), time.Duration(e.T)*time.Microsecond)
+			return
+		}
+	}
 	var got []int64
 	for _, p := range pings {
 		got = append(got, p.T)
@@ -542,3 +553,14 @@ func decideC13(c *vh.Case, spec c13Spec) {
 }
 
 var _ = testing.Short
+
+// c13LogHandler turns the SDK's log records into events.
+type c13LogHandler struct{ log *vh.Log }
+
+func (h c13LogHandler) Enabled(context.Context, slog.Level) bool { return true }
+func (h c13LogHandler) Handle(_ context.Context, r slog.Record) error {
+	h.log.Add("sdk-log", "level", r.Level.String(), "msg", r.Message)
+	return nil
+}
+func (h c13LogHandler) WithAttrs([]slog.Attr) slog.Handler { return h }
+func (h c13LogHandler) WithGroup(string) slog.Handler      { return h }
